@@ -3,10 +3,11 @@ package c06
 
 import (
 	"fmt"
-	"time"
+	"github.com/openfga/openfga/pkg/storage"
 	"math/rand"
 	"sort"
 	"strings"
+	"time"
 
 	openfgav1 "github.com/openfga/api/proto/openfga/v1"
 
@@ -49,7 +50,22 @@ func run(c *vk.Ctx) {
 		return
 	}
 	defer limited.Close()
-	sem.RunCases(c, base, "mem", c.Pick(120, 1500), gen.Options{WideEvery: 4, AlgebraEvery: 5, HierarchyEvery: 6}, 4, 12, func(i int, r *rand.Rand, p *sem.Prepared, contextual []*openfgav1.TupleKey) {
+	// a server whose 60 ms ListUsers deadline expires while reads (25 ms each) of the deeper branches are
+	// still under way: partial results must stay sound (a truncated subtracted branch must not let
+	// excluded users through)
+	var ods *drive.ObsDS
+	slow, err := drive.NewShared(drive.Cfg{LUDeadline: 60 * time.Millisecond, WrapDS: func(ds storage.OpenFGADatastore) storage.OpenFGADatastore {
+		ods = drive.NewObsDS(ds)
+		return ods
+	}}, base)
+	if err != nil {
+		c.HarnessError("server: %v", err)
+		return
+	}
+	defer slow.Close()
+	ods.ReadLatency.Store(int64(25 * time.Millisecond))
+	slowSrv = slow
+	sem.RunCases(c, base, "mem", c.Pick(180, 1800), gen.Options{WideEvery: 4, AlgebraEvery: 3, HierarchyEvery: 6}, 4, 12, func(i int, r *rand.Rand, p *sem.Prepared, contextual []*openfgav1.TupleKey) {
 		oneCase(c, i, r, p, contextual, base, limited)
 	})
 }
@@ -98,10 +114,28 @@ func oneCase(c *vk.Ctx, i int, r *rand.Rand, p *sem.Prepared, contextual []*open
 			}
 		}
 	}
+	if p.Case.Features["exclusion"] && slowSrv != nil {
+		rc := ref.NewCase(p.Ref, all, nil, sem.ExtraObjects(nodes, nil)...)
+		n := 0
+		for _, nd := range nodes {
+			if !p.Ref.ReachesExclusion(typeOf(nd[0]), nd[1]) || strings.HasSuffix(nd[0], ":zz") {
+				continue
+			}
+			exp := sem.RefListUsers(rc, nd[0], nd[1], "user", "")
+			lo := slowSrv.ListUsers(drive.Req{Store: p.Store, Object: nd[0], Relation: nd[1], Contextual: contextual}, "user", "")
+			c.Count("deadline_truncated_requests_on_exclusion_relations", 1)
+			judge(c, p, rc, contextual, "deadline-60ms", 1<<30, nd, "user", "", exp, lo)
+			if n++; n >= 6 {
+				break
+			}
+		}
+	}
 	c.SampleEvery(i, 20, func() any {
 		return map[string]any{"case": p.Case.Name, "model": p.Ref.DSL(), "stored": gen.TupleStrings(p.Stored), "contextual": gen.TupleStrings(contextual), "filters": len(filters)}
 	})
 }
+
+var slowSrv *drive.Srv
 
 func typeOf(o string) string { t, _ := ref.SplitObject(o); return t }
 
@@ -129,6 +163,9 @@ func judge(c *vk.Ctx, p *sem.Prepared, rc *ref.Case, contextual []*openfgav1.Tup
 	wit := func(got []string) map[string]any {
 		w := sem.Witness(p, cfg, "", sem.Request{Object: n[0], Relation: n[1], User: ft + "#" + fr, Ctx: rc.Context}, contextual, fmt.Sprintf("concrete=%v wildcard=%v", exp.Concrete, exp.Wildcard), strings.Join(got, ","))
 		sem.AddWire(w, p, contextual, rc.Context)
+		if pred, m := sem.PredictListUsers(rc, n[0], n[1], ft, fr); m != nil {
+			w["algorithm_model_prediction"] = map[string]any{"users": pred, "determinate": m.Determinate(), "order_dependent": m.Nondet}
+		}
 		return w
 	}
 	if lo.Code == "PANIC" {
@@ -168,7 +205,7 @@ func judge(c *vk.Ctx, p *sem.Prepared, rc *ref.Case, contextual []*openfgav1.Tup
 		if k != ref.T {
 			f := sem.ClassifyCheck("C06", rc, sem.Request{Object: n[0], Relation: n[1], User: u, Ctx: rc.Context}, k, drive.Outcome{Allowed: true}, "default")
 			if f == "" {
-				f = sem.ClassifyListUsersExclusion("C06", p, n[0], n[1])
+				f = byModel(c, p, rc, n, ft, fr, got, limit > 0)
 			}
 			c.Violation(f, fmt.Sprintf("unsound|%s|%s|%s", shape, ref.UserKind(u), k),
 				fmt.Sprintf("ListUsers(%s#%s, filter %s#%s, ctx=%s) returned %s whose reference value as a Check subject is %s; got %v, reference concrete=%v wildcard=%v", n[0], n[1], ft, fr, gen.CtxString(rc.Context), u, k, got, exp.Concrete, exp.Wildcard), wit(got))
@@ -204,9 +241,24 @@ func judge(c *vk.Ctx, p *sem.Prepared, rc *ref.Case, contextual []*openfgav1.Tup
 			f = ""
 		}
 		if f == "" {
-			f = sem.ClassifyListUsersMissing("C06", p, rc, n[0], n[1], ft, fr, missing)
+			f = byModel(c, p, rc, n, ft, fr, got, false)
 		}
 		c.Violation(f, fmt.Sprintf("incomplete|%s|%s", shape, fkind),
 			fmt.Sprintf("ListUsers(%s#%s, filter %s#%s, ctx=%s) omitted %v although they hold the relation and no wildcard was returned; got %v, reference concrete=%v wildcard=%v", n[0], n[1], ft, fr, gen.CtxString(rc.Context), missing, got, exp.Concrete, exp.Wildcard), wit(got))
 	}
+}
+
+// byModel attributes a deviating answer to the listed exclusion-bookkeeping finding through the
+// executable model of the implementation's algorithm (sem/lumodel.go) and books what the model decided.
+func byModel(c *vk.Ctx, p *sem.Prepared, rc *ref.Case, n [2]string, ft, fr string, got []string, truncated bool) string {
+	f, notDecided := sem.ClassifyListUsersByModel("C06", p, rc, n[0], n[1], ft, fr, got, truncated)
+	switch {
+	case f != "" && notDecided:
+		c.Count("exclusion_deviations_not_decided_by_the_algorithm_model(order-dependent)", 1)
+	case f != "":
+		c.Count("exclusion_deviations_reproduced_by_the_algorithm_model", 1)
+	default:
+		c.Count("deviations_the_algorithm_model_does_not_reproduce", 1)
+	}
+	return f
 }
